@@ -118,6 +118,7 @@ CHECKS = {
     "C09": dict(
         pkg="./c09", level="exploration",
         runs=[
+            dict(name="longown", run="^TestPropLongOwnership$", checks=(20, 200), shards=(1, 4), shrinktime="5s"),
             dict(name="configs", run="^TestPropSubscriptions$", checks=(2000, 12000), shards=(4, 16)),
             dict(name="regress", run="^(TestRegress.*|TestRealNATS|TestRealNATSListenAndServe)$", shards=(1, 1)),
         ],
